@@ -62,12 +62,12 @@ ASSUMPTIONS = [
 ]
 
 TIERS = {
-    "quick": dict(mc_depth=6, cov_depth=4, sim_inv=150, sim_inv_depth=30, dump_depth=4,
+    "quick": dict(mc_depth=9, cov_depth=4, sim_inv=150, sim_inv_depth=30, dump_depth=4,
                   max_walk=120, step_budget=8000, sim_walks=60, sim_depth=18, hist=70, hist_len=24,
-                  tlc_timeout=240),
-    "thorough": dict(mc_depth=9, cov_depth=5, sim_inv=8000, sim_inv_depth=40, dump_depth=5,
+                  tlc_timeout=900),
+    "thorough": dict(mc_depth=12, cov_depth=5, sim_inv=8000, sim_inv_depth=40, dump_depth=5,
                      max_walk=200, step_budget=60000, sim_walks=1200, sim_depth=30, hist=2000,
-                     hist_len=40, tlc_timeout=1500),
+                     hist_len=40, tlc_timeout=2400),
 }
 
 _COV = re.compile(r"^<(\w+) line \d+, col \d+ to line \d+, col \d+ of module ImageIter(?: \([\d ]+\))?>: (\d+):(\d+)", re.M)
